@@ -58,6 +58,27 @@ def build(pc, E, canary=None):
     for it in lemmas():
         pc.add_item(it)
     chain_text.run(pc, E)
+    # bounded stand-in (labelled bounded): instrumented middlewares on a real application
+    import json, os
+    from pyvc.run import native, HERE
+    try:
+        out = native('onion_case.py', {}, repo_root=E.repo.root)
+    except Exception as e:
+        out = {'harness_error': repr(e)}
+    if out.get('harness_error'):
+        pc.errors.append('bounded stand-in onion_case: %s' % out['harness_error'][-300:])
+    else:
+        pc.bounded.append({'what': 'traces of instrumented request/endpoint/render middlewares on a real application: full M shape, '
+                                   'render skipped for a BaseResponse, unwinding on an exception, catch-all (404/405) route wrapped, '
+                                   'three nesting levels with unique and non-unique types', 'bound': '6 scenarios', 'cases': 6,
+                           'failures': out.get('count', 0), 'label': 'bounded'})
+        if out.get('fails'):
+            fn = 'replays/C03-bounded-onion.json'
+            os.makedirs(os.path.join(HERE, 'replays'), exist_ok=True)
+            with open(os.path.join(HERE, fn), 'w') as f:
+                json.dump({'property': 'C03', 'obligation': 'C03.B/onion (bounded stand-in)',
+                           'concretised_input': {'script': 'onion_case.py', 'case': {}}, 'native_observation': out}, f, indent=1)
+            pc.violations.append(('C03.B/onion', fn, True))
     pc.assumptions += [
         'A-exec: the nested closures compiled from the generated text call funcs[k] once with next bound to the '
         'level k+1 closure and return/raise what it returns/raises (Python semantics of nested def; the text shape '
